@@ -24,8 +24,10 @@ def main():
     ap.add_argument("--tier", default="quick")
     ap.add_argument("--tests", action="store_true", help="also run the repository test-suite on the mutant")
     ap.add_argument("--seed", default="1")
+    ap.add_argument("--file", default="mutations.json", help="mutations.json (expect exit 1) or refactors.json (expect exit 0)")
     args = ap.parse_args()
-    with open(os.path.join(HERE, "tools", "mutations.json")) as fh:
+    expect = 0 if "refactor" in args.file else 1
+    with open(os.path.join(HERE, "tools", args.file)) as fh:
         muts = json.load(fh)
     rows = []
     for m in muts:
@@ -70,7 +72,7 @@ def main():
         finally:
             shutil.rmtree(tmp, ignore_errors=True)
     # remember the outcome (committed: DESIGN.md section 8.2 is generated from it)
-    resfile = os.path.join(HERE, "tools", "mutation_results.json")
+    resfile = os.path.join(HERE, "tools", "refactor_results.json" if expect == 0 else "mutation_results.json")
     try:
         results = json.load(open(resfile))
     except Exception:
@@ -82,8 +84,11 @@ def main():
     json.dump(results, open(resfile, "w"), indent=1, sort_keys=True)
     bad = 0
     for mid, prop, rc, note in rows:
-        flag = "caught" if rc == 1 else "MISSED"
-        if rc != 1:
+        if expect == 1:
+            flag = "caught" if rc == 1 else "MISSED"
+        else:
+            flag = "quiet" if rc == 0 else "ALARM"
+        if rc != expect:
             bad += 1
         print(f"{flag:7} {prop:4} {mid:40} rc={rc} {note}")
     return 1 if bad else 0
